@@ -37,6 +37,7 @@ def g_train(draw):
         st = gen.fractional_stats(draw, p["C"], p["F"], p["means"] + cls_shift[lab], p["variances"],
                                   n_frames=gen.integer(draw, 1, 12), r=r, zero_prob=gen.choice(draw, [0.0, 0.0, 0.3]))
         stats.append(st)
+    stats = gen.share_counts(draw, stats, p["variances"], r)
     c["sessions"] = gen.revive_dead_components(stats, p["means"], p["variances"])
     c["y"] = labels
     c["em"] = gen.integer(draw, 1, 6 if gen.big() else 4)
